@@ -676,7 +676,7 @@ def enumerate_cases(ctx):
     ffs = (None, 'id', 'g', 'q', 'zz')
     ctx.scope('write_tsv/read_tsv structure: every row list of 1..2 rows over fields %s where each field is absent / None / an int, with >= 2 columns overall '
               '(includes fully empty rows), x {tsv, csv} x first_field in %s (quick: 2-row lists with first_field None, and q for tsv, only)%s'
-              % (FIELDS, list(ffs), '' if quick else '; every 3-row list x first_field in {None, q}'))
+              % (FIELDS, list(ffs), '' if quick else '; every 3-row list as tsv with first_field None and as csv with first_field q'))
     _tsv_structure(ctx, [1], exts, ffs)
     if quick:
         _tsv_structure(ctx, [2], exts, (None,))
@@ -684,7 +684,8 @@ def enumerate_cases(ctx):
     else:
         _tsv_structure(ctx, [2], exts, ffs)
     if not quick:
-        _tsv_structure(ctx, [3], exts, (None, 'q'))
+        _tsv_structure(ctx, [3], ('tsv',), (None,))
+        _tsv_structure(ctx, [3], ('csv',), ('q',))
     alpha, L = (['a', '1', ',', '\t', '"', ' '], 3) if quick else (['a', '1', ',', '\t', '"', ' ', "'", '.', '-', 'e'], 3)
     strs = list(non_numeric_strings(alpha, L))
     if not quick:
